@@ -210,7 +210,7 @@ Example C10_nonvacuous :
   create_serializer env_ok 3 (s2p "P") = Ok tt.
 Proof. repeat split; vm_compute; reflexivity. Qed.
 
-   the tie to the source of fast_serialization.py (generated layer), appended from the contributor's file *)
+(* ---- the tie to the source of fast_serialization.py (generated layer) ---------------------------------- *)
 (* Property C10, second half (fast serialization): the tie to the source of typedpy/serialization/fast_serialization.py,
    re-checked by the kernel on every run.  Ready to be appended to Props/C10.v.
    Gen/FastSrc.v is re-generated from the source (harness/genmods/py2v_fast.py): FastSerializable.__init__ /
@@ -520,5 +520,3 @@ Print Assumptions C10_src_level.
 Print Assumptions C10_src_eligible.
 Print Assumptions C10_src_enum_mapping.
 Print Assumptions C10_src_enum_order_same.
-
-(* ===============================================================================================
